@@ -72,7 +72,7 @@ type Hang struct {
 
 type Case struct {
 	Gen       string   `json:"gen"`
-	Transport string   `json:"transport"` // direct | handle
+	Transport string   `json:"transport"` // direct | handle (one connection per operation) | conn (one connection for the whole case)
 	Ops       []Op     `json:"ops"`
 	Obs       []Obs    `json:"obs"`
 	Hang      *Hang    `json:"hang,omitempty"`
@@ -168,6 +168,78 @@ func handleGet(dev *device.Device) (string, error) {
 		return "", fmt.Errorf("get did not end with errno=0: %q", out)
 	}
 	return strings.TrimSuffix(out, "errno=0\n"), nil
+}
+
+// uapiConn is ONE IpcHandle connection used for many operations, like a
+// long-lived management client: every request goes out in a single Write and
+// the status line errno=N of every operation is read back.  Requests are kept
+// below the handler's 4096-byte read buffer so that a failing set cannot leave
+// unread lines behind (the whole request has been consumed by then).
+type uapiConn struct {
+	dev  *device.Device
+	cl   net.Conn
+	rd   *bufio.Reader
+	nops int
+}
+
+const connMaxRequest = 3500
+
+func (u *uapiConn) open() {
+	cl, sv := net.Pipe()
+	go u.dev.IpcHandle(sv)
+	u.cl, u.rd, u.nops = cl, bufio.NewReader(cl), 0
+}
+
+func (u *uapiConn) close() {
+	if u.cl != nil {
+		u.cl.Close()
+		u.cl = nil
+	}
+}
+
+// request returns the lines before the status line and the errno reported.
+func (u *uapiConn) request(req string) (string, int64, error) {
+	if u.cl == nil {
+		u.open()
+	}
+	cl := u.cl
+	go func() { cl.Write([]byte(req)) }()
+	cl.SetReadDeadline(time.Now().Add(15 * time.Second))
+	var lines []string
+	for {
+		l, err := u.rd.ReadString('\n')
+		if err != nil {
+			n := u.nops
+			u.close()
+			return "", 0, fmt.Errorf("connection lost after %d operations: %v", n, err)
+		}
+		if l == "\n" {
+			break
+		}
+		lines = append(lines, l)
+	}
+	u.nops++
+	if len(lines) == 0 || !strings.HasPrefix(lines[len(lines)-1], "errno=") {
+		return "", 0, fmt.Errorf("no status line in %q", strings.Join(lines, ""))
+	}
+	st := lines[len(lines)-1]
+	n, err := strconv.ParseInt(strings.TrimSuffix(st[6:], "\n"), 10, 64)
+	return strings.Join(lines[:len(lines)-1], ""), n, err
+}
+
+func (u *uapiConn) set(text string) (int64, error) {
+	if !strings.HasSuffix(text, "\n") {
+		text += "\n"
+	}
+	req := "set=1\n" + text + "\n"
+	if len(req) > connMaxRequest {
+		return handleSet(u.dev, text) // too large for one buffered read: its own connection
+	}
+	body, n, err := u.request(req)
+	if err == nil && body != "" {
+		err = fmt.Errorf("set answered with a body %q", body)
+	}
+	return n, err
 }
 
 // handleGarbage: an unknown operation / trailing characters after get=1 must
@@ -433,6 +505,8 @@ func runCase(c *Case) {
 	c.Obs = nil
 	c.Hang = nil
 	c.Anomaly = nil
+	uc := &uapiConn{dev: dev}
+	defer uc.close()
 	for i, op := range c.Ops {
 		var errno int64
 		var undeliveredText string
@@ -460,7 +534,14 @@ func runCase(c *Case) {
 			})
 		default:
 			ok = withWatchdog(func() {
-				if c.Transport == "handle" {
+				if c.Transport == "conn" {
+					n, err := uc.set(op.Text)
+					if err != nil {
+						c.Anomaly = append(c.Anomaly, fmt.Sprintf("op%d conn-set: %v", i, err))
+						n = -9997
+					}
+					errno = n
+				} else if c.Transport == "handle" {
 					n, err := handleSet(dev, op.Text)
 					if err != nil {
 						c.Anomaly = append(c.Anomaly, fmt.Sprintf("op%d handle-set: %v", i, err))
@@ -486,6 +567,15 @@ func runCase(c *Case) {
 		var gerr error
 		if op.Kind == "getfail" || op.Kind == "hangup" {
 			text = undeliveredText
+		} else if c.Transport == "conn" {
+			var st int64
+			okg := withWatchdog(func() { text, st, gerr = uc.request("get=1\n\n") })
+			if !okg {
+				gerr = errors.New("get on the shared connection does not return")
+			} else if gerr == nil && st != 0 {
+				// the configuration keys arrived; the status of THIS operation must be 0
+				c.Anomaly = append(c.Anomaly, fmt.Sprintf("op%d get-status-on-shared-connection errno=%d want 0", i, st))
+			}
 		} else if c.Transport == "handle" {
 			text, gerr = handleGet(dev)
 		} else {
@@ -1038,7 +1128,7 @@ func genCase(r *rand.Rand) Case {
 			c.Ops = append(c.Ops, Op{Kind: "set", Text: p.setText()})
 		}
 	}
-	if r.Intn(5) == 0 {
+	if x := r.Intn(5); x < 2 {
 		ok := true
 		for _, op := range c.Ops {
 			if op.Kind == "set" {
@@ -1053,9 +1143,12 @@ func genCase(r *rand.Rand) Case {
 				}
 			}
 		}
-		if ok {
+		if ok && x == 0 {
 			c.Transport = "handle"
 			c.Gen += "-handle"
+		} else if ok {
+			c.Transport = "conn"
+			c.Gen += "-conn"
 		}
 	}
 	return c
@@ -1117,6 +1210,10 @@ func directed() []Case {
 	// candidate defect: a device whose private key was cleared answers to pub(0); a peer with the
 	// all-zero public key is then a real peer, but a fresh device (no key at all) ignores that key.
 	add("d-roundtrip-zero-pubkey", set("private_key="+priv1), set("private_key="+zeroKey), set("public_key="+zeroKey, "allowed_ip=10.0.0.0/8"))
+	// status per operation: valid, invalid, valid ... (on a shared connection each answer must be its own)
+	add("d-status-per-operation", set("listen_port=1"), set("listen_port=65536"), set("listen_port=2"), set("listen_port"),
+		set("public_key="+pA, "allowed_ip=10.0.0.0/8"), set("public_key="+pA, "endpoint=bad", "allowed_ip=10.1.0.0/16"), set("fwmark=1"),
+		set("public_key=zz"), set("public_key="+pA, "remove=true"))
 	// the same scenarios through IpcHandle where the text allows it
 	n := len(cs)
 	for i := 0; i < n; i++ {
@@ -1136,10 +1233,16 @@ func directed() []Case {
 			}
 		}
 		if ok {
-			c.Gen += "-handle"
-			c.Transport = "handle"
-			c.Ops = append([]Op{}, c.Ops...)
-			cs = append(cs, c)
+			h := c
+			h.Gen += "-handle"
+			h.Transport = "handle"
+			h.Ops = append([]Op{}, c.Ops...)
+			cs = append(cs, h)
+			k := c
+			k.Gen += "-conn"
+			k.Transport = "conn"
+			k.Ops = append([]Op{}, c.Ops...)
+			cs = append(cs, k)
 		}
 	}
 	return cs
